@@ -60,6 +60,11 @@ impl Stack {
 //@endfn
 }
 
+/// the reference preconditions of one step plus the simulation-side fact process_stack_ops relies on
+pub open spec fn pso_ok(g: &Generator, op: OpcodeKind, a: RefArg, r: RefState) -> bool {
+    ref_pre(op, a, r) && g.sim_pre(op)
+}
+
 pub open spec fn le_u32(b: Seq<u8>) -> int {
     vstd::bytes::spec_u32_from_le_bytes(seq![b[0], b[1], b[2], b[3]]) as int
 }
@@ -120,6 +125,33 @@ impl Generator {
     /// C17: the simulation mirrors the reference machine
     pub open spec fn rel(&self, r: RefState) -> bool {
         compat_stack(self.view(), r.stack) && self.memo_rel(r)
+    }
+
+    /// the reference state that has exactly the simulated kinds: every simulated state is related to it.
+    /// Used when unsafe mutations let the simulation drift from the bytes: the simulation is still a
+    /// well-defined machine of its own, which is all that termination and panic-freedom need.
+    pub open spec fn own_state(&self) -> RefState {
+        RefState {
+            stack: self.view(),
+            memo: Map::new(self.state.memo@.dom().map(|k: usize| k as int), |k: int| self.state.memo@[k as usize].kind()),
+            memo_len: self.state.memo@.len() as int,
+        }
+    }
+    pub proof fn lemma_own_rel(&self)
+        ensures self.rel(self.own_state())
+    {
+        let m = self.state.memo@;
+        let r = self.own_state();
+        assert forall|k: usize| #[trigger] m.dom().contains(k) <==> r.memo.dom().contains(k as int) by {
+            if m.dom().contains(k) { assert(m.dom().map(|k: usize| k as int).contains(k as int)); }
+            if r.memo.dom().contains(k as int) {
+                let x = choose|x: usize| m.dom().contains(x) && x as int == k as int;
+                assert(x == k);
+            }
+        }
+        assert forall|k: int| #[trigger] r.memo.dom().contains(k) implies 0 <= k <= usize::MAX by {
+            let x = choose|x: usize| m.dom().contains(x) && x as int == k;
+        }
     }
 
 //@fn src/generator/utils.rs Generator::peek
@@ -345,13 +377,13 @@ impl Generator {
         &&& (op == OpcodeKind::NextBuffer || op == OpcodeKind::ReadOnlyBuffer) ==> self.allow_buffer_opcodes
         &&& op == OpcodeKind::Proto ==> !self.state.proto_emitted
         &&& op == OpcodeKind::BinPut ==> self.state.memo@.len() < 256
-        &&& self.sim_pre(op)
+        &&& !self.unsafe_mutations ==> self.sim_pre(op)
     }
 
     /// simulation-side facts a guard establishes that process_stack_ops relies on (STACK_GLOBAL only
     /// pushes its result when it sees two String cells)
     pub open spec fn sim_pre(&self, op: OpcodeKind) -> bool {
-        op == OpcodeKind::StackGlobal && !self.unsafe_mutations ==>
+        op == OpcodeKind::StackGlobal ==>
             self.view().len() >= 2 && at(self.view(), 0) == Kind::String && at(self.view(), 1) == Kind::String
     }
 
@@ -414,7 +446,7 @@ impl Generator {
         res && (opcode == OpcodeKind::NextBuffer || opcode == OpcodeKind::ReadOnlyBuffer) ==> self.allow_buffer_opcodes, // @C10
         res && opcode == OpcodeKind::Proto ==> !self.state.proto_emitted, // @C05
         res && opcode == OpcodeKind::BinPut ==> self.state.memo@.len() < 256, // @C02
-        res ==> self.sim_pre(opcode), // @C17
+        res && !self.unsafe_mutations ==> self.sim_pre(opcode), // @C17
         res ==> self.guard_ok(opcode, r),
         opcode == OpcodeKind::None ==> res, // @C11 @C12
         self.witness(opcode) ==> res, // @C12
@@ -442,16 +474,21 @@ impl Generator {
 
     /// loop invariant of the `while let Some(item) = self.pop()` collapse loops: a prefix of the
     /// entry stack that still contains the topmost MARK
-    pub open spec fn popping(&self, o: &Generator) -> bool {
+    /// in every state: the stack is a prefix of the entry stack and nothing else changed
+    pub open spec fn prefix_of(&self, o: &Generator) -> bool {
         &&& self.view().len() <= o.view().len()
         &&& self.view() =~= o.view().subrange(0, self.view().len() as int)
-        &&& 0 <= top_mark(o.view()) < self.view().len()
         &&& self.state.memo == o.state.memo && self.output == o.output && self.same_config(o)
     }
+    /// ... that still contains the topmost MARK, if there is one
+    pub open spec fn popping(&self, o: &Generator) -> bool {
+        self.prefix_of(o) && top_mark(o.view()) < self.view().len()
+    }
+    /// loop exit: cut at the topmost MARK, or everything popped when there was none
     pub open spec fn popped_to_mark(&self, o: &Generator) -> bool {
-        &&& top_mark(o.view()) >= 0
-        &&& self.view() =~= o.view().subrange(0, top_mark(o.view()))
-        &&& self.state.memo == o.state.memo && self.output == o.output && self.same_config(o)
+        &&& self.prefix_of(o)
+        &&& top_mark(o.view()) >= 0 ==> self.view() =~= o.view().subrange(0, top_mark(o.view()))
+        &&& top_mark(o.view()) < 0 ==> self.view().len() == 0
     }
 
 //@define POP_TO_MARK_LOOP
@@ -466,9 +503,13 @@ impl Generator {
 //@define PAIR_LOOP
 //@loop 1
                     invariant_except_break
-                        self.popping(old(self)),
-                        (self.view().len() - 1 - top_mark(old(self).view())) % 2 == 0,
-                    ensures self.popped_to_mark(old(self)),
+                        self.prefix_of(old(self)),
+                        // with an even number of operands above the MARK (reference precondition) the key pop never reaches it
+                        pso_ok(old(self), opcode, a, r) ==> self.popping(old(self)) && top_mark(old(self).view()) >= 0
+                            && (self.view().len() - 1 - top_mark(old(self).view())) % 2 == 0,
+                    ensures
+                        self.prefix_of(old(self)),
+                        pso_ok(old(self), opcode, a, r) ==> self.popped_to_mark(old(self)) && top_mark(old(self).view()) >= 0,
                     decreases self.view().len(),
 //@after 1 while let Some(value) = self.pop()
                     proof { lemma_top_mark_props(old(self).view()); }
@@ -482,16 +523,15 @@ impl Generator {
 //@contract
     requires
         old(self).rel(r),
-        !old(self).unsafe_mutations,
-        ref_pre(opcode, a, r), // @C01 @C02 @C03
-        old(self).sim_pre(opcode), // @C17
-        arg_link(opcode, arg_bytes, a), // @C17 @C04
+        arg_link(opcode, arg_bytes, a), // @C17 @C04 @C09
     ensures
-        shape_eq(final(self).view(), sim_step(opcode, a, r).stack), // @C01 @C03 @C17
-        kinds_ok(final(self).view(), sim_step(opcode, a, r).stack), // @C03 @C17
-        final(self).memo_dom_rel(sim_step(opcode, a, r)), // @C02 @C17
-        final(self).memo_kinds_rel(sim_step(opcode, a, r)), // @C03 @C17
-        final(self).rel(sim_step(opcode, a, r)),
+        // whenever the reference preconditions hold (always, in safe mode) the simulation follows the reference machine
+        pso_ok(old(self), opcode, a, r) ==> shape_eq(final(self).view(), sim_step(opcode, a, r).stack), // @C01 @C03 @C17
+        pso_ok(old(self), opcode, a, r) ==> kinds_ok(final(self).view(), sim_step(opcode, a, r).stack), // @C03 @C17
+        pso_ok(old(self), opcode, a, r) ==> final(self).memo_dom_rel(sim_step(opcode, a, r)), // @C02 @C17
+        pso_ok(old(self), opcode, a, r) ==> final(self).memo_kinds_rel(sim_step(opcode, a, r)), // @C03 @C17
+        pso_ok(old(self), opcode, a, r) ==> final(self).rel(sim_step(opcode, a, r)),
+        // in every state (unsafe mutations included): no panic, and only the simulated stack/memo change
         final(self).output == old(self).output, // @C04 @C06
         final(self).same_config(old(self)), // @C05 @C10
 //@arm Dup
@@ -516,7 +556,7 @@ impl Generator {
                         accumulated@.len() == old(self).view().len() - self.view().len(),
                     ensures
                         self.popped_to_mark(old(self)),
-                        accumulated@.len() == old(self).view().len() - 1 - top_mark(old(self).view()),
+                        top_mark(old(self).view()) >= 0 ==> accumulated@.len() == old(self).view().len() - 1 - top_mark(old(self).view()),
                     decreases self.view().len(),
 //@after 1 while let Some(item) = self.pop()
                     proof { lemma_top_mark_props(old(self).view()); }
